@@ -16,7 +16,7 @@ META = {
         "each exit Client.config must equal the snapshot taken at entry, and a final request checks the restored "
         "behaviour. Traced job (mode T): the timeout / retries values themselves are symbolic integers flowing "
         "through dataclasses.replace, the context manager and the sender call."),
-    "bounds": ["histories of up to 5 steps (quick) / 7 steps (thorough) over 9 step kinds, nesting depth <= 4, plus a final request",
+    "bounds": ["histories of up to 5 steps (quick) / 6 steps (thorough) over 9 step kinds, nesting depth <= 4, plus a final request",
                "credentials cycle V2C(public) -> V2C(other) -> V1 -> V3(md5 user) (same-family and cross-family switches)",
                "timeout / retries: distinct concrete values per step (E) and symbolic 1..10^6 (T)"],
     "outside": ["longer histories, deeper nesting", "reconfiguration from several tasks at once"],
@@ -236,7 +236,7 @@ def h_traced(t0, t1, t2, r1):
 
 def jobs(tier):
     quick = tier == "quick"
-    n = 5 if quick else 7
+    n = 5 if quick else 6
     funcs = ["puresnmp.api.raw:Client.configure", "puresnmp.api.raw:Client.reconfigure", "puresnmp.api.raw:Client._send",
              "puresnmp.plugins.mpm:create", "puresnmp.api.raw:Client.__init__"]
     out = []
